@@ -19,7 +19,7 @@ Extraction "model.ml"
   run_dec_u8 run_dec_u32 run_dec_usize run_dec_bool run_dec_field run_dec_ext run_dec_hash run_dec_cap
   run_dec_mproof run_dec_usizevec run_dec_strategy run_dec_friconfig run_dec_friparams run_dec_circuitconfig
   run_dec_verifieronly run_dec_openings run_dec_proof
-  run_cpp run_lkc run_clp
+  run_cpp run_lkc run_clp run_lksel
   run_l0lastb run_l0last run_consumer run_sat run_vanish run_starkid run_lkcols run_psums run_lkeval run_ctleval run_ctlsum
   run_arity_bits run_friprove
   run_gate_evalbase run_gate_basevsext run_gate_evalext run_gate_generate run_gate_genguard run_gate_pinned run_gate_sizes run_gate_written run_gate_lowdeg run_gate_circuit_agrees run_gate_absdeg run_gate_filter run_gate_evalfiltered run_gate_cosetnew run_gate_subgroup.
